@@ -1,0 +1,101 @@
+//go:build verif
+
+package lossy
+
+// Verification hook for property C11 (see internal/verifhook/poison_on.go): takes the
+// objects currently held by this package's sync.Pools, overwrites the fields named in
+// scratch[<type>] with garbage and puts the objects back.
+
+import (
+	"sync"
+
+	"github.com/deepteams/webp/internal/bitio"
+	"github.com/deepteams/webp/internal/verifhook"
+)
+
+// VerifPoisonReport counts, per "Type.field", how many pooled objects had the field
+// poisoned; Missing lists "Type.field" names that are not fields of the type.
+type VerifPoisonReport struct {
+	Poisoned map[string]int
+	Objects  map[string]int
+	Missing  []string
+}
+
+func drainPool(p *sync.Pool, max int) []any {
+	var out []any
+	for len(out) < max {
+		v := p.Get()
+		if v == nil {
+			break
+		}
+		out = append(out, v)
+	}
+	return out
+}
+
+func (r *VerifPoisonReport) note(typ string, done, missing []string) {
+	r.Objects[typ]++
+	for _, f := range done {
+		r.Poisoned[typ+"."+f]++
+	}
+	for _, f := range missing {
+		name := typ + "." + f
+		dup := false
+		for _, m := range r.Missing {
+			dup = dup || m == name
+		}
+		if !dup {
+			r.Missing = append(r.Missing, name)
+		}
+	}
+}
+
+// VerifPoisonPools poisons the Scratch fields of every pooled VP8Encoder (and the
+// TokenBuffer nested in it), Decoder, parallelState (and its RowWorkers),
+// importUVWorker and BoolWriter.  scratch maps a type name to field names.
+func VerifPoisonPools(scratch map[string][]string) VerifPoisonReport {
+	rep := VerifPoisonReport{Poisoned: map[string]int{}, Objects: map[string]int{}}
+	for _, v := range drainPool(&encoderPool, 64) {
+		enc := v.(*VP8Encoder)
+		d, m := verifhook.PoisonFields(enc, scratch["VP8Encoder"])
+		rep.note("VP8Encoder", d, m)
+		d, m = verifhook.PoisonFields(&enc.tokens, scratch["TokenBuffer"])
+		rep.note("TokenBuffer", d, m)
+		defer encoderPool.Put(enc)
+	}
+	for _, v := range drainPool(&lossyDecoderPool, 64) {
+		dec := v.(*Decoder)
+		d, m := verifhook.PoisonFields(dec, scratch["Decoder"])
+		rep.note("Decoder", d, m)
+		defer lossyDecoderPool.Put(dec)
+	}
+	for _, v := range drainPool(&parallelPool, 64) {
+		ps := v.(*parallelState)
+		var fields []string
+		for _, f := range scratch["parallelState"] {
+			if f != "workers" {
+				fields = append(fields, f)
+			}
+		}
+		d, m := verifhook.PoisonFields(ps, fields)
+		rep.note("parallelState", d, m)
+		for i := range ps.workers {
+			d, m = verifhook.PoisonFields(&ps.workers[i], scratch["RowWorker"])
+			rep.note("RowWorker", d, m)
+		}
+		defer parallelPool.Put(ps)
+	}
+	for _, v := range drainPool(&importUVWorkerPool, 64) {
+		wk := v.(*importUVWorker)
+		d, m := verifhook.PoisonFields(wk, scratch["importUVWorker"])
+		rep.note("importUVWorker", d, m)
+		defer importUVWorkerPool.Put(wk)
+	}
+	for _, v := range drainPool(&boolWriterPool, 64) {
+		bw := v.(*bitio.BoolWriter)
+		d, m := verifhook.PoisonFields(bw, scratch["BoolWriter"])
+		rep.note("BoolWriter", d, m)
+		defer boolWriterPool.Put(bw)
+	}
+	return rep
+}
